@@ -23,7 +23,7 @@ theorem all_histories (s0 : St) (h0 : s0.phase = .idle) (pre : List Ev)
     (hpre : ∀ e ∈ pre, e.isCall = false) (v r T : Nat) (es : List Ev) :
     (run s0 pre).1.phase = .idle ∧
     (run s0 (pre ++ .call v r T :: es)).2 = trace (run s0 pre).1 v r T es := by
-  obtain ⟨h1, h2, _, _⟩ := idle_run s0 pre h0 hpre
+  obtain ⟨h1, h2, _⟩ := idle_run s0 pre h0 hpre
   refine ⟨h1, ?_⟩
   rw [run_append]
   simp [h2, trace]
@@ -109,49 +109,91 @@ example : txTimes (trace (init ⟨10, 0, 100⟩ true false 250) 42 3 5000
     [.wait 2000, .report ⟨10, 0, 100⟩, .timer, .wait 125, .report ⟨7, 0, 100⟩, .timer, .timer])
     = [250, 5250] := by decide
 
-/-- **refresh_iff, tracked**: when the controller announces parameter-version changes no
-re-read request is sent. -/
-theorem refresh_iff_tracked (s0 : St) (h0 : s0.phase = .idle) (ht : s0.tracking = true)
-    (v r T : Nat) (es : List Ev) : ∀ k ∈ txKinds (trace s0 v r T es), k = true := by
-  have key : (txKinds (trace s0 v r T es)).all id = true := by
-    simp only [trace, txKinds_append, List.all_append, Bool.and_eq_true]
+/-- **refresh_per_attempt**: `is_tracking_changes` is looked at once per attempt, right after the
+set request was queued, and may change during the call (`setTracking` events).  Over the outputs
+tagged with the flag's value at that moment: a set request made while the flag is OFF is followed
+by exactly one re-read request before anything else is transmitted, a set request made while it
+is ON by none (`pairedT`); and once `set` has returned no re-read is outstanding. -/
+theorem refresh_per_attempt (s0 : St) (h0 : s0.phase = .idle) (v r T : Nat) (es : List Ev) :
+    pairedT false false (tagged s0 (.call v r T :: es)) = true ∧
+    ((run s0 (.call v r T :: es)).1.phase = .done →
+      pairedT true false (tagged s0 (.call v r T :: es)) = true) := by
+  have key : ∀ c, (c = true → (run (step s0 (.call v r T)).1 es).1.phase = .done) →
+      pairedT c false (tagged s0 (.call v r T :: es)) = true := by
+    intro c hcd
+    rw [tagged_cons]
     rcases after_call s0 h0 v r T with ⟨hd, _, hk, _⟩ | ⟨_, hc⟩
-    · rw [hk, (done_silent _ es hd).2]; simp
-    · obtain ⟨ha, _, _, _, _, htr, _⟩ := arm_facts s0 v r T
-      rw [hc]
-      refine ⟨loopTop_noRefresh _ ht, run_noRefresh _ es ha ?_ (by rw [htr]; exact ht)⟩
-      unfold loopTop goSleep attempt
-      (repeat' split) <;> simp_all
-  simpa using key
+    · have hs : tagged (step s0 (.call v r T)).1 es = [] := by
+        have := tagged_fst (step s0 (.call v r T)).1 es
+        rw [(done_silent _ es hd).2] at this
+        simpa using this
+      rw [hs, List.append_nil]
+      rcases call_cases s0 h0 v r T with ⟨_, h2⟩ | ⟨_, _, h2⟩ | ⟨h1, _, _, h2⟩
+      · rw [h2]; cases c <;> simp [tag, pairedT]
+      · rw [h2]; cases c <;> simp [tag, pairedT]
+      · rw [h2] at hd ⊢
+        have := loopTop_pairedT (arm s0 v r T) c []
+        simp only [List.append_nil] at this
+        rw [this]
+        simp [pairedT, awaiting, hd]
+    · obtain ⟨ha, _⟩ := arm_facts s0 v r T
+      rw [hc] at hcd ⊢
+      rw [loopTop_pairedT]
+      cases c with
+      | false => exact run_pairedT _ es ha
+      | true => exact run_pairedT_complete _ es ha (hcd rfl)
+  exact ⟨key false (by simp), fun hd => key true (fun _ => by simpa using hd)⟩
 
-/-- **refresh_iff, not tracked**: the transmissions are `set, re-read, set, re-read, …` — every
-set request is followed by exactly one re-read request before the next set request; only a
-history that stops while the re-read request is still under construction ends with a lone set
-request, and once `set` has returned every set request has had its re-read. -/
+/-- the outputs of a history without announcements all carry the initial flag -/
+theorem tags_constant (s0 : St) (v r T : Nat) (es : List Ev) (hn : ∀ e ∈ es, e.isTrack = false) :
+    ∀ x ∈ tagged s0 (.call v r T :: es), x.2 = s0.tracking :=
+  tagged_const s0 _ (by
+    intro e he
+    rcases List.mem_cons.mp he with rfl | he
+    · rfl
+    · exact hn e he)
+
+/-- **refresh_iff, tracked** (the flag stays on): no re-read request is sent. -/
+theorem refresh_iff_tracked (s0 : St) (h0 : s0.phase = .idle) (ht : s0.tracking = true)
+    (v r T : Nat) (es : List Ev) (hn : ∀ e ∈ es, e.isTrack = false) :
+    ∀ k ∈ txKinds (trace s0 v r T es), k = true := by
+  have h := (refresh_per_attempt s0 h0 v r T es).1
+  have hc := tags_constant s0 v r T es hn
+  have := pairedT_tracked false _ (fun x hx => by rw [hc x hx, ht]) h
+  rw [tagged_fst] at this
+  simpa [trace] using this
+
+/-- **refresh_iff, not tracked** (the flag stays off): the transmissions are `set, re-read, set,
+re-read, …` — every set request is followed by exactly one re-read request before the next set
+request; only a history that stops while the re-read request is still under construction ends
+with a lone set request, and once `set` has returned every set request has had its re-read. -/
 theorem refresh_iff_untracked (s0 : St) (h0 : s0.phase = .idle) (ht : s0.tracking = false)
-    (v r T : Nat) (es : List Ev) :
+    (v r T : Nat) (es : List Ev) (hn : ∀ e ∈ es, e.isTrack = false) :
     (∃ n, txKinds (trace s0 v r T es) = pairs n ∨ txKinds (trace s0 v r T es) = pairs n ++ [true]) ∧
     ((run (step s0 (.call v r T)).1 es).1.phase = .done → ∃ n, txKinds (trace s0 v r T es) = pairs n) := by
-  have key : ∀ c, (c = true → (run (step s0 (.call v r T)).1 es).1.phase = .done) →
-      paired c false (txKinds (trace s0 v r T es)) = true := by
-    intro c hcd
-    simp only [trace, txKinds_append]
-    rcases after_call s0 h0 v r T with ⟨hd, _, hk, _⟩ | ⟨_, hc⟩
-    · rw [hk, (done_silent _ es hd).2]; simp [paired]
-    · obtain ⟨ha, _, _, _, _, htr, _⟩ := arm_facts s0 v r T
-      rw [hc] at hcd ⊢
-      rw [loopTop_paired _ (show (arm s0 v r T).tracking = false from ht)]
-      cases c with
-      | false => exact run_paired _ es ha (by rw [htr]; exact ht)
-      | true => exact run_paired_complete _ es ha (by rw [htr]; exact ht) (hcd rfl)
+  have hc := tags_constant s0 v r T es hn
+  have conv : ∀ c, pairedT c false (tagged s0 (.call v r T :: es)) =
+      paired c false (txKinds (trace s0 v r T es)) := by
+    intro c
+    rw [pairedT_untracked c false _ (fun x hx => by rw [hc x hx, ht]), tagged_fst]
+    simp [trace]
+  obtain ⟨h1, h2⟩ := refresh_per_attempt s0 h0 v r T es
   constructor
-  · obtain ⟨n, hn⟩ := paired_shape false _ (key false (by simp))
-    exact ⟨n, hn.imp id (·.2)⟩
+  · rw [conv] at h1
+    obtain ⟨n, hn'⟩ := paired_shape false _ h1
+    exact ⟨n, hn'.imp id (·.2)⟩
   · intro hd
-    obtain ⟨n, hn⟩ := paired_shape true _ (key true (fun _ => hd))
-    rcases hn with hn | ⟨hf, _⟩
-    · exact ⟨n, hn⟩
+    have := h2 (by simpa using hd)
+    rw [conv] at this
+    obtain ⟨n, hn'⟩ := paired_shape true _ this
+    rcases hn' with hn' | ⟨hf, _⟩
+    · exact ⟨n, hn'⟩
     · cases hf
+
+/-- the flag is switched on between two attempts: the first set request is followed by a re-read,
+the second is not -/
+example : tagged (init ⟨10, 0, 100⟩ false false 0) [.call 42 3 5000, .wait 1000, .setTracking true, .timer, .timer] =
+    [(.txSet 42 0, false), (.txRefresh 0, false), (.txSet 42 5000, true), (.txSet 42 10000, true)] := by decide
 
 example : trace (init ⟨10, 0, 100⟩ false true 0) 42 2 5000 [.built, .report ⟨10, 0, 100⟩, .built, .timer, .built]
     = [.txSet 42 0, .txRefresh 0, .txSet 42 5000] := by decide
@@ -263,7 +305,7 @@ to what the IMPLEMENTATION did — accepts everything the machine does: for ever
 held triple, tracking on or off, executor synchronous or held) and every event history. -/
 theorem holds (s0 : St) (h0 : s0.phase = .idle) (es : List Ev) :
     spec s0.tracking s0.loc (observe s0 es) = true :=
-  check_observe s0 (Mon.init s0.loc) es (by simp [Rel, h0])
+  check_observe s0 (Mon.init s0.tracking s0.loc) es (by simp [Rel, h0])
 
 /-- `spec` is not vacuous: it rejects an attempt that carries the old value (the D7 defect) … -/
 example : spec false ⟨10, 0, 100⟩
